@@ -344,6 +344,13 @@ def runner_witness(role):
                 src += "".join(f".p{i}_after = {nm}\n" for i, nm in enumerate(names))
                 exp = {"outcome": "ok", "event_has": ["ran_body"], "event_eq": {f"p{i}_after": _tag(o) for i, (nm, o) in enumerate(zip(names, (o0, o1)))}}
                 variants.append(({"source": src, "event": {"zero": 0, "yes": True}}, exp))
+        # map_keys: the closure's result may fail the key conversion *after* the body succeeded; a non-string can only
+        # reach it through the (known) hole that closure bodies' assignments are invisible to the type checker
+        if method == "map_key" and shape in ("ok", "return"):
+            ret = "return x" if shape == "return" else "x"
+            src = ('x = "s"\nfor_each([0]) -> |_i, _v| { x = 1 }\np0 = "outer0"\n'
+                   f'.r, .e = map_keys({{"a": 1, "b": 2}}) -> |p0| {{ .ran_body = true; to_int(.n); {ret} }}\n.p0_after = p0\n')
+            variants.append(({"source": src, "event": {"zero": 0, "yes": True, "n": 1}}, {"outcome": "ok", "event_has": ["ran_body"], "event_eq": {"p0_after": {"Bytes": "outer0"}}}))
         # an outer variable that is unset must stay unset
         src = (f".r, .e = {call} -> {params} {body}\n" if shape == "error" else f".r = {call} -> {params} {body}\n") + ".p0_after = p0\n"
         return variants
